@@ -283,6 +283,17 @@ def mk_qube(d):
         vals = np.zeros(full)
         vals[..., 0, 0] = np.cos(ang); vals[..., 0, 1] = np.sin(ang)
         vals[..., 1, 0] = -np.sin(ang); vals[..., 1, 1] = np.cos(ang); vals[..., 2, 2] = 1.
+    if d.get('zrow') and vals.size:
+        # an all-zero item (e.g. an all-zero coefficient row of a Polynomial) at chosen positions of the leading shape
+        isz = int(np.prod(numer + denom, dtype=int)) or 1
+        flat = vals.reshape(-1, isz)
+        for pos in d['zrow']:
+            flat[pos % flat.shape[0]] = 0
+    if d.get('put') and vals.size:
+        # boundary values placed at the ends (e.g. the `top` of Scalar.int) 
+        flat = vals.reshape(-1)
+        flat[0] = d['put']
+        flat[-1] = d['put']
     if d.get('singular') and len(numer) == 2 and vals.size:
         vals.reshape((-1,) + tuple(numer + denom))[0] = 0.
     if d.get('pyscalar') and full == []:
@@ -292,6 +303,8 @@ def mk_qube(d):
         mask = False
     elif m == 'T':
         mask = True
+    elif isinstance(m, list):
+        mask = np.array(m, dtype=bool).reshape(shape)
     else:
         bits = _values(seed + 17, shape, 'bool') if shape else np.array(False)
         if m == 'V' and len(shape) >= 1 and shape[0] > 1:
